@@ -68,7 +68,10 @@ class C07(Property):
                         sched = []
                         for _ in range(k):
                             sched += o1
-                        sched += [c for c in o1 if c != lost]      # this round loses one message
+                        # this round loses one message; now and then the following one or two rounds lose the same end's message too
+                        # (the original AND its repeats are lost)
+                        for _ in range(rng.choice([1, 1, 2, 3])):
+                            sched += [c for c in o1 if c != lost]
                         sched += ["q"]
                         for _ in range(7):
                             sched += o2
@@ -113,7 +116,7 @@ class C07(Property):
             for end, (qa, qb) in enumerate(((qs[0], qs[2]), (qs[1], qs[3])), 1):
                 ma, mb = int(qa["rot"].split("/")[0]), int(qb["rot"].split("/")[0])
                 if mb < ma + 4:
-                    return ("after one lost rotation message followed by 7 regular rounds end %d advanced its rotation message id only from "
+                    return ("after one to three rounds that lost the rotation message of one end, followed by 7 regular rounds, end %d advanced its rotation message id only from "
                             "%d to %d: a lost message must only postpone the next key change") % (end, ma, mb)
         last_probe = None
         for i, (o, r) in enumerate(zip(ops, outs)):
